@@ -37,9 +37,20 @@ int main() {
 #endif
 		if (sys.parse_line(t)) continue;
 		if (t[0] == "results") { ECPIntegrator f; sys.make(f, vh::I(t[1]), vh::I(t[1]), vh::I(t[2])); results(f, vh::I(t[2])); continue; }
-		if (t[0] == "assemble") {
-			int g = vh::I(t[1]), deriv = vh::I(t[2]);
+		if (t[0] == "assemble" || t[0] == "assemble_moved") {
+			// `assemble_moved <g0> <g1> <deriv>`: the integrator is built and used at geometry g0 first, then moved to g1 with the
+			// coordinate-update calls; what it returns there must be what a fresh integrator returns (screening decisions included)
+			bool moved = t[0] == "assemble_moved";
+			int g = vh::I(t[1]), deriv = vh::I(t[moved ? 3 : 2]);
 			ECPIntegrator f; sys.make(f, g, g, deriv);
+			if (moved) {
+				int g1 = vh::I(t[2]);
+				f.compute_integrals();
+				if (deriv >= 1) f.compute_first_derivs();
+				auto sc = sys.shell_coords(g1), ec = sys.ecp_coords(g1);
+				f.update_gaussian_basis_coords(sys.shells.size(), sc.data());
+				f.update_ecp_basis_coords(sys.ecps.size(), ec.data());
+			}
 			std::ostream &o = std::cout;
 			o << "> begin api\n";
 			for (auto &s : f.shells) o << "> shell " << bits(s.center()[0]) << " " << bits(s.center()[1]) << " " << bits(s.center()[2]) << " " << s.ncartesian() << "\n";
